@@ -3,11 +3,27 @@
 use crate::Report;
 use serde_json::{json, Value};
 
+pub mod adapters;
+pub mod delta_roundtrip;
+pub mod deltaid;
+pub mod history;
 pub mod merge;
+pub mod pack;
+pub mod patch;
+pub mod revision;
+pub mod tree;
 
 pub fn run(name: &str, thorough: bool, seed: u64) -> Option<Report> {
     match name {
         "merge_arrays" => Some(merge::run(thorough, seed)),
+        "revision" => Some(revision::run(thorough, seed)),
+        "tree" => Some(tree::run(thorough, seed)),
+        "pack" => Some(pack::run(thorough, seed)),
+        "deltaid" => Some(deltaid::run(thorough, seed)),
+        "delta_roundtrip" => Some(delta_roundtrip::run(thorough, seed)),
+        "adapters" => Some(adapters::run(thorough, seed)),
+        "patch" => Some(patch::run(thorough, seed)),
+        "history" => Some(history::run(thorough, seed)),
         _ => None,
     }
 }
@@ -15,6 +31,14 @@ pub fn run(name: &str, thorough: bool, seed: u64) -> Option<Report> {
 pub fn replay(name: &str, case: &Value) -> Value {
     match name {
         "merge_arrays" => merge::replay(case),
+        "revision" => revision::replay(case),
+        "tree" => tree::replay(case),
+        "pack" => pack::replay(case),
+        "deltaid" => deltaid::replay(case),
+        "delta_roundtrip" => delta_roundtrip::replay(case),
+        "adapters" => adapters::replay(case),
+        "patch" => patch::replay(case),
+        "history" => history::replay(case),
         _ => json!({"reproduced": false, "error": "unknown oracle"}),
     }
 }
@@ -30,4 +54,32 @@ pub fn guarded<T, F: FnOnce() -> T + std::panic::UnwindSafe>(f: F) -> Result<T, 
             "panic".to_string()
         }
     })
+}
+
+/// Keeps the 5 failure slots of a `Report` informative: at most `max` failures per class are passed
+/// on to `Report::fail`; all are counted (summary on stderr, never on stdout).
+pub struct FailureClasses {
+    pub counts: std::collections::BTreeMap<String, u64>,
+    pub max: u64,
+}
+
+impl FailureClasses {
+    pub fn new(max: u64) -> Self {
+        FailureClasses { counts: std::collections::BTreeMap::new(), max }
+    }
+    pub fn fail(&mut self, rep: &mut Report, class: &str, case_id: &str, input: Value, what: &str) {
+        let c = self.counts.entry(class.to_string()).or_insert(0);
+        *c += 1;
+        if *c <= self.max {
+            rep.fail(case_id, input, what);
+        }
+    }
+    pub fn total(&self) -> u64 {
+        self.counts.values().sum()
+    }
+    pub fn summary(&self, oracle: &str) {
+        if !self.counts.is_empty() {
+            eprintln!("[{}] failing cases per class: {:?}", oracle, self.counts);
+        }
+    }
 }
